@@ -58,6 +58,8 @@ def gen(rng, k, dll=None, big=False, presend=False):
     sc = dict(kind='tpconf', dll=dll, role=role, bam=bam, size=size, seed=rng.getrandbits(30), max_cmdt=max_cmdt, cmdt_iv=cmdt_iv, bam_iv=bam_iv,
               dp=dp, pf=pf, ps=ps, prio=rng.randint(0, 7), plan=plan, lat=[rng.choice([1, 500, 5000])], jit=[rng.choice([1, 1000])])
     if rng.random() < 0.3:
+        sc['reuse_buffers'] = True       # the application uses its payload list again as soon as send_pgn has returned
+    if rng.random() < 0.3:
         # cyclic application timers on the same ECU (periods above and below the 200 ms a broadcast may pause)
         sc['app_timers'] = [rng.choice([120000, 230000, 500000, 1000000]) for _ in range(rng.choice([1, 1, 2]))]
     if presend and fd and role == 'stack-originator' and not bam and rng.random() < 0.5:
@@ -77,6 +79,7 @@ def runner(sc):
     sim = vts.Sim(jitters=sc.get('jit', [1]))
     lat = sc.get('lat', [1])
     sim.latency = lambda c, src, dst: lat[c % len(lat)]
+    sim.reuse_buffers = bool(sc.get('reuse_buffers'))
     res = scen.Result()
     res.sc = sc
     try:
